@@ -884,10 +884,10 @@ def check(pid, argv=None):
         "a foreign native storage type handed directly to update_from_native/copy_to_native is outside the contract (mixed buffer kinds meet only through update_from_xbuffer)",
         "observation reads the raw storage object (buffer.buffer) and cross-checks to_bytearray(0, capacity) against it",
         "GPU buffer kinds are out of scope"]
+    rp = json.load(open(run.replay))["replay"] if run.replay else None
     os.chdir(run.tmp)
     ctx = mp.get_context("fork")
     if run.replay:
-        rp = json.load(open(run.replay))["replay"]
         if rp["kind"] == "behaviour":
             r = run_behaviour(rp["beh"], tuple(rp["caps"]), tuple(rp["cfg"]), [tuple(tuple(y) if isinstance(y, list) else y for y in x) for x in rp["choice"]])
             run.cov["traces_validated_against_impl"] = 1
